@@ -296,7 +296,7 @@ pub fn property() -> Property {
             "documents",
             "generated packing lists, line model + whole-document entry list",
             doc_strategy,
-            |t| t.pick(100_000, 1_500_000),
+            |t| t.pick(100_000, 4_000_000),
             check_doc,
         ), crate::fuzz::replay_stream(),
         ],
